@@ -15,14 +15,14 @@ package weighted_sum
 //@      typeis(x, WeightedSumAddedCriterion) && exists k int :: 0 <= k && k < len(x.(WeightedSumAddedCriterion).weights) && x.(WeightedSumAddedCriterion).weights[k].Id == id
 
 //@ func (*weightedSumParams).Criterion
-//@   property C07 C15 C18 C03 C16 C19
+//@   property C07 C15 C18 C03 C16 C19 C01 C09 C20
 //@   requires p.weightedCriteria != nil
 //@   panics_iff [missing] !(exists k int :: 0 <= k && k < len(*p.weightedCriteria) && (*p.weightedCriteria)[k].Id == criterion)
 //@   ensures [first_match] exists k int :: 0 <= k && k < len(*p.weightedCriteria) && result == (*p.weightedCriteria)[k] && result.Id == criterion
 //@   loop 1 invariant [none_before] forall j int :: 0 <= j && j < iter ==> (*p.weightedCriteria)[j].Id != criterion
 
 //@ func (*WeightedSumBiasListener).OnCriteriaRemoved
-//@   property C07 C15 C03
+//@   property C07 C15 C03 C01 C09 C20
 //@   nopanic
 //@   refines model.BiasListener.OnCriteriaRemoved with validParams=wsValid, coversId=wsCovers
 //@   ensures [weights_kept] typeis(result, weightedSumParams) && len(*result.(weightedSumParams).weightedCriteria) == len(*leftCriteria)
@@ -34,7 +34,7 @@ package weighted_sum
 //@   loop 1 invariant [own_entries] forall k int :: 0 <= k && k < iter ==> exists j int :: 0 <= j && j < len(*wParams.weightedCriteria) && result[k] == (*wParams.weightedCriteria)[j]
 
 //@ func (*WeightedSumBiasListener).OnCriterionAdded
-//@   property C07 C18 C03
+//@   property C07 C18 C03 C01 C09 C19 C20
 //@   nopanic
 //@   fnparam generator ensures 0.0 <= result && result < 1.0
 //@   refines model.BiasListener.OnCriterionAdded with validParams=wsValid, coversId=wsCovers, accepts=wsAccepts, acceptsAny=wsAcceptsAny
@@ -45,7 +45,7 @@ package weighted_sum
 //@             && len(result.(WeightedSumAddedCriterion).weights) == 1 && result.(WeightedSumAddedCriterion).weights[0].Criterion == *criterion
 
 //@ func (*WeightedSumBiasListener).Merge
-//@   property C07 C18 C03
+//@   property C07 C18 C03 C01 C09 C19 C20
 //@   nopanic
 //@   refines model.BiasListener.Merge with validParams=wsValid, coversId=wsCovers, accepts=wsAccepts, acceptsAny=wsAcceptsAny
 
@@ -56,7 +56,7 @@ package weighted_sum
 //@ spec usum(a model.AlternativeWithCriteria, cs []model.WeightedCriterion, n int) real = n <= 0 ? 0.0 : usum(a, cs, n - 1) + model.signed(a, cs[n - 1].Criterion)
 
 //@ func WeightedSum
-//@   property C03 C01 C04 C07 C15 C18
+//@   property C03 C01 C04 C07 C15 C18 C20
 //@   ensures [single_value] fresh(result) && typeis(result.Evaluation, model.EvaluationSingleValue) && result.Alternative == alternative
 //@   ensures [C03 weighted] model.val(*result) == wsum(alternative, criteria, len(criteria))
 //@   ensures [unweighted_sum] model.val(*result) == usum(alternative, criteria, len(criteria))
@@ -65,13 +65,13 @@ package weighted_sum
 
 // the per-alternative evaluation closure of Evaluate: WeightedSum of the alternative over the parameters' weighted criteria
 //@ func (*WeightedSumPreferenceFunc).Evaluate$1
-//@   property C03 C01 C04 C15 C07 C18
+//@   property C03 C01 C04 C15 C07 C18 C20
 //@   requires params.weightedCriteria != nil
 //@   ensures [is_weighted_sum] result != nil && typeis(result.Evaluation, model.EvaluationSingleValue) && result.Alternative == *alternative
 //@             && model.val(*result) == usum(*alternative, *params.weightedCriteria, len(*params.weightedCriteria))
 
 //@ func (*WeightedSumPreferenceFunc).Evaluate
-//@   property C03 C01 C04 C15 C07 C18
+//@   property C03 C01 C04 C15 C07 C18 C20
 //@   requires [distinct] forall i int, j int :: 0 <= i && i < j && j < len(dmp.ConsideredAlternatives) ==> dmp.ConsideredAlternatives[i].Id != dmp.ConsideredAlternatives[j].Id
 //@   requires [params] typeis(dmp.MethodParameters, weightedSumParams) && dmp.MethodParameters.(weightedSumParams).weightedCriteria != nil
 //@   ensures [one_entry_each] result != nil && len(*result) == len(dmp.ConsideredAlternatives)
@@ -83,18 +83,18 @@ package weighted_sum
 
 // ---- importance of a criterion for this method (C15): its weight times the values cumulated over the considered alternatives
 //@ func (*WeightedSumBiasListener).RankCriteriaAscending$1
-//@   property C15 C07 C16 C18 C19
+//@   property C15 C07 C16 C18 C19 C01 C09 C20
 //@   requires wParams.weightedCriteria != nil
 //@   ensures [weight_times_value] exists k int :: 0 <= k && k < len(*wParams.weightedCriteria) && (*wParams.weightedCriteria)[k].Id == criterion && result == (*wParams.weightedCriteria)[k].Weight * value
 
 // the parsed parameters: every declared criterion, in declared order, with the weight the request gives it
 //@ func (*WeightedSumPreferenceFunc).ParseParams
-//@   property C03 C20 C07
+//@   property C03 C20 C07 C01
 //@   ensures [declared_criteria_with_their_weights] typeis(result, weightedSumParams) && result.(weightedSumParams).weightedCriteria != nil
 //@             && len(*result.(weightedSumParams).weightedCriteria) == len(dm.Criteria)
 //@             && forall i int :: 0 <= i && i < len(dm.Criteria) ==> (*result.(weightedSumParams).weightedCriteria)[i].Criterion == dm.Criteria[i]
 //@ func (*WeightedSumPreferenceFunc).Identifier
-//@   property C20 C03
+//@   property C20 C03 C01 C04 C05 C06 C07 C08 C09 C11 C12 C13 C14 C15 C16 C17 C18 C19
 //@   nopanic
 //@   ensures [name] result == "weightedSum"
 //@ func (*WeightedSumPreferenceFunc).MethodParameters
@@ -111,14 +111,14 @@ package weighted_sum
 
 // ---- registered names (what a request must say to select this object; what error messages list)
 //@ func (*WeightedSumBiasListener).Identifier
-//@   property C07 C20
+//@   property C07 C20 C01 C03 C04 C05 C06 C08 C09 C11 C12 C13 C14 C15 C16 C17 C18 C19
 //@   nopanic
 //@   ensures [name] result == "weightedSum"
 
 // the listener's ranking: every declared criterion once, ascending in the cumulated importance (the mapper closure above gives
 // weight x value per considered alternative)
 //@ func (*WeightedSumBiasListener).RankCriteriaAscending
-//@   property C15 C07 C16 C18 C19
+//@   property C15 C07 C16 C18 C19 C01 C09 C20
 //@   requires [distinct] model.distinctCriteria(params.Criteria)
 //@   requires [valid] typeis(params.MethodParameters, weightedSumParams) && params.MethodParameters.(weightedSumParams).weightedCriteria != nil
 //@   ensures [every_criterion_once_ascending] result != nil && fresh(result) && fresh(*result) && len(*result) == len(params.Criteria)
